@@ -280,6 +280,13 @@ fn main() {
         for s in &singles {
             cases.push(Case { workload: w.clone(), faults: vec![*s] });
         }
+        // bursts: 2 or 3 consecutive store calls fail (a store that stays unavailable for a moment; a bounded retry
+        // loop gives up exactly here)
+        for i in 0..k {
+            for len in 2..=3usize {
+                cases.push(Case { workload: w.clone(), faults: (i..i + len).map(|j| (j, ObjFault::Fail)).collect() });
+            }
+        }
         if w.len() <= if thorough { 7 } else { 5 } {
             for (a, s1) in singles.iter().enumerate() {
                 for s2 in &singles[a + 1..] {
@@ -308,7 +315,7 @@ fn main() {
     let coverage = json!({
         "evaluations": cases.len() as u64 + wb,
         "distinct_nontrivial": distinct.lock().unwrap().len(),
-        "rule": "workload = every sequence of <=10 (thorough 11) operations over {push a fresh update, flush, compact} containing a push and a flush; fault plan = none, every single store-call index x {transient failure; for puts also truncated object + error} plus all ordered pairs of faults for workloads of <=5 (thorough 7) ops; each case runs the real StreamingPersistence/Compactor to the end with the process staying up; then EVERY prefix of the store-operation log (plus the torn-put variant of each successful put) is recovered with the real RecoveryManager; distinct_nontrivial = distinct store-operation histories",
+        "rule": "workload = every sequence of <=10 (thorough 11) operations over {push a fresh update, flush, compact} containing a push and a flush; fault plan = none, every single store-call index x {transient failure; for puts also truncated object + error} plus bursts of 2-3 consecutive failing calls, plus all ordered pairs of faults for workloads of <=5 (thorough 7) ops; each case runs the real StreamingPersistence/Compactor to the end with the process staying up; then EVERY prefix of the store-operation log (plus the torn-put variant of each successful put) is recovered with the real RecoveryManager; distinct_nontrivial = distinct store-operation histories",
         "workloads": workloads.len(),
         "cases": cases.len(),
         "cases_in_which_a_fault_fired": faults_hit.load(Ordering::Relaxed),
